@@ -210,7 +210,7 @@ theorem sum_range_shift_int {A : Type*} [AddCommMonoid A] (n : ℕ) (h : ℤ →
     rw [← this, ← ih]
     exact sum_congr rfl fun i _ => by congr 1; ring
 
-theorem emod_range (n : ℕ) (i : ℕ) (hi : i ∈ range n) : ((i : ℤ)) % (n : ℤ) = i :=
+theorem emod_range_nat (n : ℕ) (i : ℕ) (hi : i ∈ range n) : ((i : ℤ)) % (n : ℤ) = i :=
   Int.emod_eq_of_lt (by omega) (by have := mem_range.mp hi; omega)
 
 /-! ## the plain DFT character `E n t = exp(-2πi·t/n)` on integers -/
@@ -298,9 +298,9 @@ theorem Orth.conj {m K : ℕ} {κ : ℕ → ℕ → ℂ} (h : Orth m K κ) : Ort
   simp only [map_sum, map_mul] at this
   rw [this]; split_ifs <;> simp
 
-@[simp] theorem dft2_s0 (f : Arr ℂ) (αr αc : ℝ) (M N : ℤ) (shr shc : ℝ) (offr offc : ℤ) (un : Bool) :
+@[simp] theorem dft2C_s0 (f : Arr ℂ) (αr αc : ℝ) (M N : ℤ) (shr shc : ℝ) (offr offc : ℤ) (un : Bool) :
     (dft2 f αr αc M N shr shc offr offc un).s0 = M := rfl
-@[simp] theorem dft2_s1 (f : Arr ℂ) (αr αc : ℝ) (M N : ℤ) (shr shc : ℝ) (offr offc : ℤ) (un : Bool) :
+@[simp] theorem dft2C_s1 (f : Arr ℂ) (αr αc : ℝ) (M N : ℤ) (shr shc : ℝ) (offr offc : ℤ) (un : Bool) :
     (dft2 f αr αc M N shr shc offr offc un).s1 = N := rfl
 
 theorem pull_const (K L : ℕ) (a b : ℕ → ℂ) (S : ℕ → ℕ → ℂ) (c : ℂ) :
